@@ -852,6 +852,22 @@ def handleGlue (st : St) (args : List String) (impl : String) : Option (St × Ve
       | some r => some ({ st with glue := some g' }, cmpModel s!"[{";".intercalate log}]|{r}|closed:{closed}" impl)
       | none => some (st, .unknown)
     | _, _ => some (st, .unknown)
+  | "glue" :: "recvf" :: f :: rest =>
+    -- the underlying adapter fails (chain error) in method `f`
+    match st.glue, parseIn rest with
+    | some g, some ([m], bodies, _) =>
+      let (g', calls, out) := consumeGlueF g m f
+      let log := calls.map (showCall 0 "")
+      let resp : Option String := match out with
+        | .pong td h => some (toHex (writeMessage net GV.Gen.Msg.T_Pong (writeU64 td ++ writeU64 h) []))
+        | .stored t => (bodyAt g.ver bodies).map fun b => toHex (writeMessage net t b [])
+        | .storedAtt _ => none
+        | _ => some "-"
+      let closed := match out with | .disconnect => 1 | .badMessage => 1 | _ => 0
+      match resp with
+      | some r => some ({ st with glue := some g' }, cmpModel s!"[{";".intercalate log}]|{r}|closed:{closed}" impl)
+      | none => some (st, .unknown)
+    | _, _ => some (st, .unknown)
   | "glue" :: "send" :: rest =>
     match st.glue with
     | none => some (st, .unknown)
@@ -908,6 +924,35 @@ def handleMore (args : List String) (impl : String) : Option Verdict :=
         else some (cmpSpec "merge" impl)
       | _, _ => some .unknown
     | none => some .unknown
+  | "cover" :: _ver :: k :: rest =>
+    -- the send channel overflowing while the writer is stalled: whole frames, every frame the NEXT frame of its
+    -- sender (so each sender got a PREFIX of its list through: `Props/C19Send.stalled_writer_accepts_prefixes`),
+    -- `SEND_CHANNEL_CAP` frames, or one more (taken by the writer before it stalled)
+    match nat? k with
+    | some k =>
+      if rest.length ≠ k + 1 then some .unknown else
+      match (rest.take k).mapM parseHexList, parseHex (rest.getD k "") with
+      | some lists, some stream =>
+        let okModel := match splitFrames netAutomatedTesting (stream.length + 1) stream with
+          | some frames =>
+            (tagFrames lists frames).isSome &&
+              (frames.length == GV.Gen.CodecConn.SEND_CHANNEL_CAP || frames.length == GV.Gen.CodecConn.SEND_CHANNEL_CAP + 1)
+          | none => false
+        if okModel then some (cmpSpec "prefixes" impl)
+        else if impl = "prefixes" then some (.fail "prefixes (the driver's evaluation of the received stream disagrees)")
+        else some (cmpSpec "prefixes" impl)
+      | _, _ => some .unknown
+    | none => some .unknown
+  | ["wtime", dir, stalled] =>
+    -- the remote never reads (`stalled` = 1) or behaves (0); both ends announce version 1000, same genesis
+    let stall : Option Nat := if stalled = "1" then none else some 0
+    let o := if dir = "accept" then acceptWithWrite stall (.ok (negotiate LOCAL_PROTOCOL_VERSION 1000))
+             else initiateWithWrite stall (.ok (negotiate LOCAL_PROTOCOL_VERSION 1000))
+    let m := match o with
+      | .ok v => s!"ok {v}"
+      | .refused e => showHs (.error e)
+      | .writeTimeout => "err Timeout"
+    if dir = "accept" ∨ dir = "initiate" then some (cmpModel m impl) else some .unknown
   | ["hstime", dir, g, sched] =>
     match parseHex g, parseSched sched with
     | some g, some sc =>
